@@ -51,7 +51,7 @@ var ruleSchemas = []kindSchema{
 		{"Qualifier", qualChoices}, {"Owner", []any{false, true}},
 		{"Path", []any{"/etc/app/conf", "@{HOME}/.config/{a,b}/**", `"/path with blank/x"`, "/usr/lib/@{multiarch}/lib*.so{,.[0-9]*}", "/srv/mes\u00a0docs/**", "/srv/wide\u3000blank/x"}},
 		{"Access", []any{s("r"), s("r", "w"), s("m", "r", "ix"), s("Px"), s("r", "w", "l", "k")}},
-		{"Target", []any{"", "tgtprofile"}}, {"Comment", commentChoices}}, true},
+		{"Target", []any{"", "tgtprofile"}}, {"Comment", commentChoices}, {"FileInherit", []any{false, true}}, {"NoNewPrivs", []any{false, true}}, {"Optional", []any{false, true}}}, true},
 	{"link", func() aa.Rule { return &aa.Link{} }, []fieldChoices{
 		{"Qualifier", qualChoices}, {"Owner", []any{false, true}}, {"Subset", []any{false, true}},
 		{"Path", []any{"/etc/a", "@{run}/x/{a,b}"}}, {"Target", []any{"/etc/b", "@{HOME}/**"}}, {"Comment", commentChoices}}, true},
@@ -71,7 +71,7 @@ var ruleSchemas = []kindSchema{
 	{"change_profile", func() aa.Rule { return &aa.ChangeProfile{} }, []fieldChoices{
 		{"Qualifier", qualChoices}, {"ExecMode", []any{"", "safe", "unsafe"}}, {"Exec", []any{"", "/bin/x"}}, {"ProfileName", []any{"", "tgtprofile", "a//b"}}, {"Comment", commentChoices}}, true},
 	{"signal", func() aa.Rule { return &aa.Signal{} }, []fieldChoices{
-		{"Qualifier", qualChoices}, {"Access", []any{s(), s("send"), s("send", "receive")}}, {"Set", []any{s(), s("hup"), s("hup", "int", "term")}},
+		{"Qualifier", qualChoices}, {"Access", []any{s(), s("send"), s("send", "receive")}}, {"Set", []any{s(), s("hup"), s("hup", "int", "term"), s("rtmin+0"), s("rtmin+32"), s("exists", "rtmin+31")}},
 		{"Peer", []any{"", "peerprof", "a//&b", "@{p_systemd}"}}, {"Comment", commentChoices}}, true},
 	{"ptrace", func() aa.Rule { return &aa.Ptrace{} }, []fieldChoices{
 		{"Qualifier", qualChoices}, {"Access", []any{s(), s("read"), s("read", "trace"), s("readby", "tracedby")}}, {"Peer", []any{"", "peerprof", "a//&b"}}, {"Comment", commentChoices}}, true},
@@ -161,7 +161,14 @@ func commentOf(r aa.Rule) string {
 	}
 	b := v.FieldByName("Base")
 	if b.IsValid() {
-		return strings.TrimSpace(b.FieldByName("Comment").String())
+		// the markers the comment template prints in front of the comment are part of what must come back
+		m := ""
+		for _, f := range []string{"FileInherit", "NoNewPrivs", "Optional"} {
+			if fv := b.FieldByName(f); fv.IsValid() && fv.Bool() {
+				m += "[" + f + "]"
+			}
+		}
+		return m + strings.TrimSpace(b.FieldByName("Comment").String())
 	}
 	return ""
 }
